@@ -8,7 +8,9 @@ cd /repo || exit 2
 if ! git diff --quiet; then echo "/repo has uncommitted changes"; exit 2; fi
 if ! git apply --check "$M/patch.diff" 2>/dev/null; then echo "PATCH DOES NOT APPLY on $(git log --format=%h -1)"; exit 3; fi
 git apply "$M/patch.diff"
-trap 'git -C /repo checkout -- . ; git -C /repo clean -fdq -e target' EXIT
+# the evidence files describe runs on the unchanged tree: keep them out of the mutant runs
+EVBAK=$(mktemp -d /tmp/evbak.XXXXXX); cp /verif/evidence/*.json "$EVBAK"/ 2>/dev/null
+trap 'git -C /repo checkout -- . ; git -C /repo clean -fdq -e target; cp "$EVBAK"/*.json /verif/evidence/ 2>/dev/null; rm -rf "$EVBAK"' EXIT
 cd /verif
 for c in "$@"; do
   out=$(timeout 3000 ./check "$c" quick 2>&1); rc=$?
